@@ -973,5 +973,481 @@ theorem ptsLoopI_steps (L : Lex) (ls : List Line) (n : Nat) (o : Option Nat) :
       repeat' split
       all_goals first | omega | exact Nat.succ_le_succ h2 | exact Nat.succ_le_succ (Nat.zero_le _)
 
+/-! ### whole-reader instrumentation: same results -/
+
+
+theorem binFaceListsI_fst (be : Bool) (ps : List ListProp) (bs : List UInt8) :
+    (binFaceListsI be ps bs).1 = binFaceLists be ps bs := by
+  induction ps generalizing bs with
+  | nil => rfl
+  | cons p ps ih =>
+    simp only [binFaceListsI, binFaceLists]
+    cases binList be p bs with
+    | none => rfl
+    | some x =>
+      obtain ⟨c, raw, r⟩ := x
+      simp only [ih]
+
+theorem binFaceI_fst (be : Bool) (f : FaceHdr) (bs : List UInt8) : (binFaceI be f bs).1 = binFace be f bs := by
+  simp only [binFaceI, binFace, binFaceListsI_fst]
+
+theorem binFacesI_fst (be : Bool) (f : FaceHdr) (n : Nat) (bs : List UInt8) :
+    (binFacesI be f n bs).1 = binFaces be f n bs := by
+  induction n generalizing bs with
+  | zero => rfl
+  | succ n ih =>
+    simp only [binFacesI, binFaces]
+    rw [← binFaceI_fst]
+    cases h : (binFaceI be f bs).1 with
+    | error e => rfl
+    | ok x =>
+      obtain ⟨fc, r⟩ := x
+      simp only [ih]
+
+theorem readPlyBinBodyI_fst (h : Hdr) (be : Bool) (body : List UInt8) :
+    (readPlyBinBodyI h be body).1 = readPlyBinBody h be body := by
+  simp only [readPlyBinBodyI, readPlyBinBody]
+  rw [← readArraysI_fst]
+  cases hq : (readArraysI (List.replicate h.vcount h.vsize) body).1 with
+  | none => rfl
+  | some x =>
+    obtain ⟨vs, r⟩ := x
+    cases hf : h.face with
+    | none => rfl
+    | some f =>
+      simp only [binFacesI_fst]
+
+theorem readStlI_fst (bs : List UInt8) : (readStlI bs).1 = readStl bs := by
+  simp only [readStlI, readStl]
+  rw [← readArraysI_fst]
+  cases hq : (readArraysI [80, 4] bs).1 with
+  | none => rfl
+  | some x =>
+    obtain ⟨as, r⟩ := x
+    rcases as with _ | ⟨a, _ | ⟨c, _ | ⟨d, e⟩⟩⟩
+    · rfl
+    · rfl
+    · simp only [readArraysI_fst]
+    · rfl
+
+theorem scanLinesAuxI_fst (bs cur : List UInt8) : (scanLinesAuxI bs cur).1 = scanLinesAux bs cur := by
+  induction bs generalizing cur with
+  | nil => rfl
+  | cons b bs ih =>
+    simp only [scanLinesAuxI, scanLinesAux]
+    split <;> simp only [ih]
+
+theorem fieldsAuxI_fst (bs cur : List UInt8) : (fieldsAuxI bs cur).1 = fieldsAux bs cur := by
+  induction bs generalizing cur with
+  | nil => rfl
+  | cons b bs ih =>
+    simp only [fieldsAuxI, fieldsAux]
+    split
+    · simp only [ih]
+    · simp only [ih]
+
+theorem scanLinesI_fst (bs : List UInt8) : (scanLinesI bs).1 = scanLines bs := by
+  simp only [scanLinesI, scanLines, scanLinesAuxI_fst, fieldsAuxI_fst, fields]
+
+theorem asciiFaceLineI_fst (L : Lex) (f : FaceHdr) (i n : Nat) (toks : List Tok) (pts : Option Nat) :
+    (asciiFaceLineI L f i n toks pts).1 = asciiFaceLine L f i n toks pts := by
+  induction n generalizing i toks pts with
+  | zero => rfl
+  | succ n ih =>
+    simp only [asciiFaceLineI, asciiFaceLine]
+    cases asciiList L toks with
+    | none => rfl
+    | some x =>
+      obtain ⟨es, rest⟩ := x
+      simp only
+      split
+      · exact ih _ _ _
+      · rfl
+
+theorem asciiFacesJ_fst (L : Lex) (f : FaceHdr) (ls : List Line) (n : Nat) :
+    (asciiFacesJ L f ls n).1 = asciiFaces L f ls n := by
+  induction ls generalizing n with
+  | nil => cases n <;> rfl
+  | cons l ls ih =>
+    cases n with
+    | zero => rfl
+    | succ n =>
+      simp only [asciiFacesJ, asciiFaces]
+      split
+      · exact ih (n + 1)
+      · rw [← asciiFaceLineI_fst]
+        cases (asciiFaceLineI L f 0 f.lists.length l.toks none).1 with
+        | error e => rfl
+        | ok p =>
+          simp only [ih n]
+
+theorem readPlyAsciiBytesI_fst (L : Lex) (h : Hdr) (body : List UInt8) :
+    (readPlyAsciiBytesI L h body).1 = readPlyAsciiBody L h (scanLines body) := by
+  simp only [readPlyAsciiBytesI, readPlyAsciiBody, scanLinesI_fst]
+  rw [← asciiVertsI_fst]
+  cases (asciiVertsI L h.nprops (scanLines body) h.vcount).1 with
+  | error e => rfl
+  | ok x =>
+    obtain ⟨vs, r⟩ := x
+    cases h.face with
+    | none => rfl
+    | some f =>
+      simp only [asciiFacesJ_fst]
+
+theorem readPtsI_fst (L : Lex) (bs : List UInt8) : (readPtsI L bs).1 = readPts L bs := by
+  simp only [readPtsI, readPts, readPtsLines, scanLinesI_fst]
+  cases scanLines bs with
+  | nil => rfl
+  | cons c ls =>
+    simp only
+    cases L.atoi? c.raw with
+    | none => rfl
+    | some n =>
+      simp only
+      split
+      · rfl
+      · exact ptsLoopI_fst L ls n.toNat none
+
+/-! ### whole-reader instrumentation: iteration bounds -/
+
+theorem binList_consumes {be : Bool} {p : ListProp} {bs : List UInt8} {c : Nat} {raw r : List UInt8}
+    (h : binList be p bs = some (c, raw, r)) : r.length + 1 ≤ bs.length := by
+  unfold binList at h
+  split at h
+  · next hcs =>
+    split at h
+    · next hle =>
+      simp only at h
+      split at h
+      · simp only [Option.some.injEq, Prod.mk.injEq] at h
+        obtain ⟨_, _, rfl⟩ := h
+        simp only [List.length_drop]
+        rcases hcs with h1 | h4 <;> omega
+      · simp at h
+    · simp at h
+  · simp at h
+
+theorem binFaceListsI_bound (be : Bool) (ps : List ListProp) (bs : List UInt8) :
+    match (binFaceListsI be ps bs).1 with
+    | some (cs, _, r) => (binFaceListsI be ps bs).2 = cs.length ∧ (binFaceListsI be ps bs).2 + r.length ≤ bs.length
+    | none => (binFaceListsI be ps bs).2 ≤ bs.length + 1 := by
+  induction ps generalizing bs with
+  | nil => simp [binFaceListsI]
+  | cons p ps ih =>
+    simp only [binFaceListsI]
+    cases hb : binList be p bs with
+    | none => simp
+    | some x =>
+      obtain ⟨c, raw, r⟩ := x
+      have hc := binList_consumes hb
+      have := ih r
+      simp only
+      cases hq : (binFaceListsI be ps r).1 with
+      | none => rw [hq] at this; simp only at this ⊢; omega
+      | some y =>
+        obtain ⟨cs, raws, r'⟩ := y
+        rw [hq] at this; simp only at this ⊢
+        simp only [List.length_cons]; omega
+
+theorem binFaceI_bound (be : Bool) (f : FaceHdr) (bs : List UInt8) :
+    (binFaceI be f bs).2 ≤ bs.length + 2 ∧
+    ∀ fc r, (binFaceI be f bs).1 = .ok (fc, r) → (binFaceI be f bs).2 + r.length ≤ bs.length + 1 ∧ r.length + 1 ≤ bs.length := by
+  have hb := binFaceListsI_bound be f.lists bs
+  simp only [binFaceI]
+  cases hq : (binFaceListsI be f.lists bs).1 with
+  | none =>
+    rw [hq] at hb; simp only at hb ⊢
+    exact ⟨by omega, fun _ _ h => by cases h⟩
+  | some y =>
+    obtain ⟨cs, raw, r⟩ := y
+    rw [hq] at hb; simp only at hb ⊢
+    refine ⟨by omega, ?_⟩
+    intro fc r' hok
+    cases hidx : cs[f.idx]? with
+    | none => rw [hidx] at hok; cases hok
+    | some pts =>
+      rw [hidx] at hok
+      simp only at hok
+      split at hok
+      · cases hok
+      · simp only [Except.ok.injEq, Prod.mk.injEq] at hok
+        obtain ⟨_, rfl⟩ := hok
+        have hne : cs.length ≥ 1 := by
+          cases cs with
+          | nil => simp at hidx
+          | cons a b => simp
+        omega
+
+theorem binFacesI_bound (be : Bool) (f : FaceHdr) (n : Nat) (bs : List UInt8) :
+    (binFacesI be f n bs).2 ≤ 2 * bs.length + 2 := by
+  induction n generalizing bs with
+  | zero => simp [binFacesI]
+  | succ n ih =>
+    obtain ⟨h1, h2⟩ := binFaceI_bound be f bs
+    simp only [binFacesI]
+    cases hq : (binFaceI be f bs).1 with
+    | error e => simp only; omega
+    | ok x =>
+      obtain ⟨fc, r⟩ := x
+      obtain ⟨h3, h4⟩ := h2 fc r hq
+      have := ih r
+      simp only; omega
+
+theorem readArrays_rest_le {sizes : List Nat} {bs : List UInt8} {as : List (List UInt8)} {r : List UInt8}
+    (h : readArrays sizes bs = some (as, r)) : r.length ≤ bs.length := by
+  induction sizes generalizing bs as r with
+  | nil => simp only [readArrays, Option.some.injEq, Prod.mk.injEq] at h; rw [h.2]
+  | cons n ns ih =>
+    simp only [readArrays] at h
+    split at h
+    · cases hq : readArrays ns (bs.drop n) with
+      | none => rw [hq] at h; simp at h
+      | some y =>
+        obtain ⟨as', r'⟩ := y
+        rw [hq] at h
+        simp only [Option.some.injEq, Prod.mk.injEq] at h
+        have := ih hq
+        simp only [List.length_drop] at this
+        rw [← h.2]; omega
+    · simp at h
+
+theorem zeroSizes_replicate (n m : Nat) (hm : 1 ≤ m) : zeroSizes (List.replicate n m) = 0 := by
+  simp only [zeroSizes]
+  rw [List.filter_eq_nil_iff.mpr]
+  · rfl
+  · intro a ha; simp only [List.mem_replicate] at ha; simp; omega
+
+theorem readPlyBinBodyI_bound (h : Hdr) (be : Bool) (body : List UInt8) (hv : 1 ≤ h.vsize) :
+    (readPlyBinBodyI h be body).2 ≤ 3 * body.length + 3 := by
+  have hq := readArraysI_steps_le_bytes (List.replicate h.vcount h.vsize) body
+  rw [zeroSizes_replicate _ _ hv] at hq
+  simp only [readPlyBinBodyI]
+  cases hr : (readArraysI (List.replicate h.vcount h.vsize) body).1 with
+  | none => simp only; omega
+  | some x =>
+    obtain ⟨vs, r⟩ := x
+    have hrl : r.length ≤ body.length := by
+      rw [readArraysI_fst] at hr; exact readArrays_rest_le hr
+    cases h.face with
+    | none => simp only; omega
+    | some f =>
+      have := binFacesI_bound be f f.count r
+      simp only; omega
+
+theorem readStlI_bound (bs : List UInt8) : (readStlI bs).2 ≤ bs.length + 3 := by
+  have hq := readArraysI_steps_le_length [80, 4] bs
+  simp only [readStlI]
+  cases hr : (readArraysI [80, 4] bs).1 with
+  | none => simp only at hq ⊢; simp only [List.length_cons, List.length_nil] at hq; omega
+  | some x =>
+    obtain ⟨as, r⟩ := x
+    have hrl : r.length ≤ bs.length := by
+      rw [readArraysI_fst] at hr; exact readArrays_rest_le hr
+    simp only [List.length_cons, List.length_nil] at hq
+    rcases as with _ | ⟨a, _ | ⟨c, _ | ⟨d, e⟩⟩⟩
+    · simp only; omega
+    · simp only; omega
+    · have ht := readArraysI_steps_le_bytes (List.replicate (leNat c) 50) r
+      rw [zeroSizes_replicate _ _ (by omega)] at ht
+      simp only; omega
+    · simp only; omega
+
+theorem scanLinesAuxI_steps (bs cur : List UInt8) : (scanLinesAuxI bs cur).2 = bs.length + 1 := by
+  induction bs generalizing cur with
+  | nil => rfl
+  | cons b bs ih => simp only [scanLinesAuxI]; split <;> simp [ih]
+
+theorem fieldsAuxI_steps (bs cur : List UInt8) : (fieldsAuxI bs cur).2 = bs.length + 1 := by
+  induction bs generalizing cur with
+  | nil => rfl
+  | cons b bs ih => simp only [fieldsAuxI]; split <;> simp [ih]
+
+theorem dropCR_length_le (l : List UInt8) : (dropCR l).length ≤ l.length := by
+  unfold dropCR
+  split
+  · next r hr =>
+    have : l.reverse.length = r.length + 1 := by rw [hr]; simp
+    simp only [List.length_reverse] at this ⊢; omega
+  · exact Nat.le_refl _
+
+/-- the lines the scanner delivers: at most one per byte (+1), and together no longer than the input -/
+theorem scanLinesAux_sizes (bs cur : List UInt8) :
+    (scanLinesAux bs cur).length ≤ bs.length + 1 ∧
+    ((scanLinesAux bs cur).map List.length).sum ≤ bs.length + cur.length := by
+  induction bs generalizing cur with
+  | nil =>
+    simp only [scanLinesAux]
+    split
+    · simp
+    · have := dropCR_length_le cur.reverse; simp only [List.length_reverse] at this; simp; omega
+  | cons b bs ih =>
+    simp only [scanLinesAux]
+    split
+    · obtain ⟨h1, h2⟩ := ih []
+      have := dropCR_length_le cur.reverse; simp only [List.length_reverse] at this
+      simp only [List.length_cons, List.map_cons, List.sum_cons, List.length_nil] at *
+      omega
+    · obtain ⟨h1, h2⟩ := ih (b :: cur)
+      simp only [List.length_cons] at *; omega
+
+theorem sum_map_add_const {β : Type} (l : List β) (g : β → Nat) (c : Nat) :
+    (l.map fun x => g x + c).sum = (l.map g).sum + c * l.length := by
+  induction l with
+  | nil => simp
+  | cons a l ih => simp only [List.map_cons, List.sum_cons, List.length_cons, ih]; ring
+
+theorem scanLinesI_bound (bs : List UInt8) : (scanLinesI bs).2 ≤ 3 * bs.length + 2 := by
+  obtain ⟨h1, h2⟩ := scanLinesAux_sizes bs []
+  simp only [scanLinesI, scanLinesAuxI_steps, scanLinesAuxI_fst, fieldsAuxI_steps]
+  rw [sum_map_add_const _ List.length 1]
+  simp only [List.length_nil] at h2
+  omega
+
+theorem fieldsAux_length_le (l cur : List UInt8) : (fieldsAux l cur).length ≤ l.length + 1 := by
+  induction l generalizing cur with
+  | nil => simp only [fieldsAux]; split <;> simp
+  | cons b l ih =>
+    simp only [fieldsAux]
+    split
+    · split
+      · have := ih []; simp only [List.length_cons]; omega
+      · have := ih []; simp only [List.length_cons]; omega
+    · have := ih (b :: cur); simp only [List.length_cons]; omega
+
+theorem asciiList_consumes {L : Lex} {toks es rest : List Tok} (h : asciiList L toks = some (es, rest)) :
+    rest.length + 1 ≤ toks.length := by
+  cases toks with
+  | nil => simp [asciiList] at h
+  | cons c r =>
+    simp only [asciiList] at h
+    cases hi : L.int? c with
+    | none => rw [hi] at h; simp at h
+    | some v =>
+      rw [hi] at h; simp only at h
+      split at h
+      · simp at h
+      · simp only [Option.some.injEq, Prod.mk.injEq] at h
+        rw [← h.2]; simp only [List.length_drop, List.length_cons]; omega
+
+theorem asciiFaceLineI_bound (L : Lex) (f : FaceHdr) (i n : Nat) (toks : List Tok) (pts : Option Nat) :
+    (asciiFaceLineI L f i n toks pts).2 ≤ toks.length + 2 := by
+  induction n generalizing i toks pts with
+  | zero => simp [asciiFaceLineI]
+  | succ n ih =>
+    simp only [asciiFaceLineI]
+    cases ha : asciiList L toks with
+    | none => simp
+    | some x =>
+      obtain ⟨es, rest⟩ := x
+      have hc := asciiList_consumes ha
+      simp only
+      split
+      · have := ih (i + 1) rest (if i = f.idx then some es.length else pts)
+        simp only; omega
+      · simp
+
+theorem asciiFacesJ_bound (L : Lex) (f : FaceHdr) (ls : List Line) (n : Nat) :
+    (asciiFacesJ L f ls n).2 ≤ (ls.map fun l => l.toks.length + 3).sum + 1 := by
+  induction ls generalizing n with
+  | nil => cases n <;> simp [asciiFacesJ]
+  | cons l ls ih =>
+    cases n with
+    | zero => simp [asciiFacesJ]
+    | succ n =>
+      have hl := asciiFaceLineI_bound L f 0 f.lists.length l.toks none
+      have h1 := ih (n + 1); have h2 := ih n
+      simp only [asciiFacesJ, List.map_cons, List.sum_cons]
+      split
+      · simp only; omega
+      · cases (asciiFaceLineI L f 0 f.lists.length l.toks none).1 with
+        | error e => simp only; omega
+        | ok p => simp only; omega
+
+theorem asciiVerts_rest_suffix {L : Lex} {np : Nat} {ls : List Line} {n : Nat} {vs : List (List Tok)} {r : List Line}
+    (h : asciiVerts L np ls n = .ok (vs, r)) : ∃ pre, ls = pre ++ r := by
+  induction ls generalizing n vs r with
+  | nil =>
+    cases n with
+    | zero => simp only [asciiVerts, Except.ok.injEq, Prod.mk.injEq] at h; exact ⟨[], by simp [h.2]⟩
+    | succ n => simp [asciiVerts] at h
+  | cons l ls ih =>
+    cases n with
+    | zero => simp only [asciiVerts, Except.ok.injEq, Prod.mk.injEq] at h; exact ⟨[], by simp [h.2]⟩
+    | succ n =>
+      simp only [asciiVerts] at h
+      split at h
+      · obtain ⟨pre, hp⟩ := ih h; exact ⟨l :: pre, by simp [hp]⟩
+      · split at h
+        · cases h
+        · split at h
+          · cases h
+          · cases hq : asciiVerts L np ls n with
+            | error e => rw [hq] at h; cases h
+            | ok x =>
+              obtain ⟨vs', r'⟩ := x
+              rw [hq] at h
+              simp only [Except.ok.injEq, Prod.mk.injEq] at h
+              obtain ⟨pre, hp⟩ := ih hq
+              exact ⟨l :: pre, by rw [← h.2]; simp [hp]⟩
+
+theorem scanLines_tokens (bs : List UInt8) :
+    (scanLines bs).length ≤ bs.length + 1 ∧
+    ((scanLines bs).map fun l => l.toks.length + 3).sum ≤ 5 * bs.length + 4 := by
+  obtain ⟨h1, h2⟩ := scanLinesAux_sizes bs []
+  simp only [List.length_nil, Nat.add_zero] at h2
+  refine ⟨by simpa [scanLines] using h1, ?_⟩
+  have hle : ∀ ls : List (List UInt8),
+      ((ls.map fun r => (⟨r, fields r⟩ : Line)).map fun l => l.toks.length + 3).sum ≤ (ls.map List.length).sum + 4 * ls.length := by
+    intro ls
+    induction ls with
+    | nil => simp
+    | cons r ls ih =>
+      have := fieldsAux_length_le r []
+      simp only [List.map_cons, List.sum_cons, List.length_cons, fields] at *
+      omega
+  have := hle (scanLinesAux bs [])
+  simp only [scanLines]
+  omega
+
+theorem readPlyAsciiBytesI_bound (L : Lex) (h : Hdr) (body : List UInt8) :
+    (readPlyAsciiBytesI L h body).2 ≤ 9 * body.length + 9 := by
+  have hs := scanLinesI_bound body
+  obtain ⟨hl, ht⟩ := scanLines_tokens body
+  have hv := asciiVertsI_steps L h.nprops (scanLinesI body).1 h.vcount
+  rw [scanLinesI_fst] at hv
+  simp only [readPlyAsciiBytesI]
+  cases hq : (asciiVertsI L h.nprops (scanLinesI body).1 h.vcount).1 with
+  | error e => simp only [scanLinesI_fst] at hv ⊢; omega
+  | ok x =>
+    obtain ⟨vs, r⟩ := x
+    cases h.face with
+    | none => simp only [scanLinesI_fst] at hv ⊢; omega
+    | some f =>
+      have hf := asciiFacesJ_bound L f r f.count
+      rw [asciiVertsI_fst, scanLinesI_fst] at hq
+      obtain ⟨pre, hp⟩ := asciiVerts_rest_suffix hq
+      have hsum : (r.map fun l => l.toks.length + 3).sum ≤ ((scanLines body).map fun l => l.toks.length + 3).sum := by
+        rw [hp, List.map_append, List.sum_append]; omega
+      simp only [scanLinesI_fst] at hv ⊢; omega
+
+theorem readPtsI_bound (L : Lex) (bs : List UInt8) : (readPtsI L bs).2 ≤ 4 * bs.length + 4 := by
+  have hs := scanLinesI_bound bs
+  obtain ⟨hl, _⟩ := scanLines_tokens bs
+  simp only [readPtsI]
+  cases hq : (scanLinesI bs).1 with
+  | nil => simp only; omega
+  | cons c ls =>
+    have hls : ls.length ≤ bs.length := by
+      rw [scanLinesI_fst] at hq; rw [hq] at hl; simp only [List.length_cons] at hl; omega
+    simp only
+    cases L.atoi? c.raw with
+    | none => simp only; omega
+    | some n =>
+      simp only
+      split
+      · omega
+      · have := ptsLoopI_steps L ls n.toNat none
+        simp only; omega
+
 end Readers
 end PolyVerif
